@@ -169,16 +169,17 @@ Proof. intros H; revert H. core_cases p; auto. Qed.
 
 (** creation of a connection *)
 Lemma created_core c s now p s1 o : recv_core c s now p = (s1, o) ->
-  (created s1 = created s /\ handlers s1 = handlers s /\ nconn s1 = nconn s) \/
+  (created s1 = created s /\ handlers s1 = handlers s /\ nconn s1 = nconn s /\ owns s1 = owns s) \/
   exists size dcid scid tok addr intact newcid,
     p = SPinitial size dcid scid tok addr intact newcid /\
     hget dcid (handlers s) = None /\
     created s1 = created s ++ [(nconn s, dcid, addr, usable tok)] /\
     handlers s1 = hput newcid (nconn s) (hput dcid (nconn s) (handlers s)) /\
     nconn s1 = nconn s + 1 /\
-    (zmem addr (verifyAddrs c) = true -> usable tok = true).
+    (zmem addr (verifyAddrs c) = true -> usable tok = true) /\
+    owns s1 = owns s ++ [(nconn s, dcid); (nconn s, newcid)].
 Proof.
-  intros H; revert H. core_cases p; auto;
+  intros H; revert H. core_cases p; auto 6;
     right; exists size, dcid, scid; eexists; exists addr, intact, newcid;
     (split; [reflexivity|]); repeat split; simpl; auto; intros V; rewrite V in *; simpl in *; congruence.
 Qed.
@@ -212,6 +213,16 @@ Lemma drain_frame s s' o : drain s = (s', o) ->
   vnq s' = [] /\ retryq s' = [] /\ invq s' = [] /\ refq s' = [].
 Proof. unfold drain. intros H. inversion H; subst. simpl. repeat split. Qed.
 
+Lemma rm_frame s s' out :
+  (exists n, close_conn s n = (s', out)) \/ (exists n k, retire_id s n k = (s', out)) ->
+  zq s' = zq s /\ nextCleanup s' = nextCleanup s /\ vnq s' = vnq s /\ invq s' = invq s /\ refq s' = refq s /\
+  retryq s' = retryq s /\ created s' = created s /\ nconn s' = nconn s /\ exists k, out = SRemoved k.
+Proof.
+  intros [(n & H)|(n & k & H)].
+  - unfold close_conn in H. inversion H; subst. simpl. repeat split; eauto.
+  - unfold retire_id in H. destruct (existsb _ (owns s)); inversion H; subst; simpl; repeat split; eauto.
+Qed.
+
 (** ---- runs ---- *)
 
 Lemma srun_cons c s o r :
@@ -224,10 +235,12 @@ Proof.
   - simpl in H. inversion H; subst. exact I.
   - rewrite srun_cons in H. destruct (sstep c s o) as [s1 out] eqn:Hs.
     destruct (srun c s1 r) as [s2 o2] eqn:Hr. inversion H; subst.
-    apply (IH _ _ _ Hr). destruct o as [now p|]; simpl in Hs.
+    apply (IH _ _ _ Hr). destruct o as [now p| |n|n k]; simpl in Hs.
     + destruct (recv_frame _ _ _ _ _ _ Hs) as (sc & Hc & _ & _ & _ & _ & _ & _ & _ & [E|E]); subst;
         [| apply zq_cleanup]; eapply zq_core; eauto.
     + destruct (drain_frame _ _ _ Hs) as (_ & _ & _ & Z & _). unfold zq_inv in *. rewrite Z. exact I.
+    + destruct (rm_frame s s1 out (or_introl (ex_intro _ n Hs))) as (Z & _). unfold zq_inv in *. rewrite Z. exact I.
+    + destruct (rm_frame s s1 out (or_intror (ex_intro _ n (ex_intro _ k Hs)))) as (Z & _). unfold zq_inv in *. rewrite Z. exact I.
 Qed.
 
 Lemma zq_inv_s0 c : zq_inv c s0.
@@ -251,13 +264,15 @@ Proof.
     destruct (IH _ _ _ Hr) as (IH1 & IH2).
     assert (K : forall a, In a (vnq s1) -> In a (vnq s) \/
               exists now size, o = SRecv now (SPunsupported size a) /\ saMinUnknownVersionPacketSize <= size /\ disableVN c = false).
-    { intros a I. destruct o as [now p|]; simpl in Hs.
+    { intros a I. destruct o as [now p| |n|n k]; simpl in Hs.
       - destruct (recv_frame _ _ _ _ _ _ Hs) as (sc & Hc & _ & _ & _ & V & _).
         rewrite V in I. destruct (vnq_core _ _ _ _ _ _ Hc) as [E|(size & a' & Ep & Sz & D & E & _)].
         + left. congruence.
         + rewrite E in I. apply in_app_or in I. destruct I as [I|[I|[]]]; [left; exact I|]. subst.
           right. exists now, size. auto.
-      - destruct (drain_frame _ _ _ Hs) as (_ & _ & _ & _ & V & _). rewrite V in I. contradiction. }
+      - destruct (drain_frame _ _ _ Hs) as (_ & _ & _ & _ & V & _). rewrite V in I. contradiction.
+      - destruct (rm_frame s s1 out (or_introl (ex_intro _ n Hs))) as (_ & _ & V & _). left. congruence.
+      - destruct (rm_frame s s1 out (or_intror (ex_intro _ n (ex_intro _ k Hs)))) as (_ & _ & V & _). left. congruence. }
     assert (lift : forall a, (In a (vnq s1) \/ exists now size, In (SRecv now (SPunsupported size a)) r /\ saMinUnknownVersionPacketSize <= size /\ disableVN c = false) ->
                    In a (vnq s) \/ exists now size, In (SRecv now (SPunsupported size a)) (o :: r) /\ saMinUnknownVersionPacketSize <= size /\ disableVN c = false).
     { intros a [I|(now & size & I & R)].
@@ -266,7 +281,7 @@ Proof.
     split.
     + intros a I. apply lift. apply IH1. exact I.
     + intros l a d sc [E|I] J.
-      * subst out. destruct o as [now p|]; simpl in Hs.
+      * subst out. destruct o as [now p| |n|n k]; simpl in Hs.
         -- exfalso. unfold recv in Hs. destruct (recv_core c s now p) as [sx ox] eqn:Ec.
            assert (ox = SDrained l) by (destruct (negb (nextCleanup s =? 0) && (nextCleanup s <? now)); inversion Hs; auto).
            subst ox. revert Ec. clear. core_cases p.
@@ -275,6 +290,8 @@ Proof.
            ++ apply in_map_iff in J. destruct J as (x & Ex & Ix). inversion Ex; subst. exact Ix.
            ++ exfalso. apply in_app_or in J. destruct J as [J|J]; [|apply in_app_or in J; destruct J as [J|J]];
                 apply in_map_iff in J; destruct J as ([[[? ?] ?] ?] & Ex & _); inversion Ex.
+        -- exfalso. destruct (rm_frame s s1 _ (or_introl (ex_intro _ n Hs))) as (_ & _ & _ & _ & _ & _ & _ & _ & k0 & Ek). discriminate.
+        -- exfalso. destruct (rm_frame s s1 _ (or_intror (ex_intro _ n (ex_intro _ k Hs)))) as (_ & _ & _ & _ & _ & _ & _ & _ & k0 & Ek). discriminate.
       * apply lift. eapply IH2; eauto.
 Qed.
 
@@ -287,43 +304,156 @@ Proof.
     + apply IH; auto.
 Qed.
 
-(** no connection for an unvalidated address when verification is required;
-    at most one connection per client-chosen DCID, which stays routed *)
-Definition conn_inv (c : scfg) (s : sst) : Prop :=
-  (forall n d a v, In (n, d, a, v) (created s) -> hget d (handlers s) <> None) /\
-  NoDup (map (fun x => match x with (_, d, _, _) => d end) (created s)) /\
-  (forall n d a v, In (n, d, a, v) (created s) -> zmem a (verifyAddrs c) = true -> v = true).
+(** ---- connections and routes, with connections that close and connection IDs that are retired ---- *)
 
-Lemma conn_core c s now p s1 o : recv_core c s now p = (s1, o) -> conn_inv c s -> conn_inv c s1.
+Lemma hget_hdel_same c h : hget c (hdel c h) = None.
+Proof. induction h as [|[k m] r IH]; simpl; [reflexivity|]. destruct (cid_eqb k c) eqn:E; simpl; [exact IH | rewrite E; exact IH]. Qed.
+
+Lemma cid_eqb_sym a b : cid_eqb a b = cid_eqb b a.
 Proof.
-  intros H (A & B & V).
-  destruct (created_core _ _ _ _ _ _ H) as [(E1 & E2 & _)|(size & dcid & scid & tok & addr & intact & newcid & Ep & G & E1 & E2 & _ & U)].
-  - unfold conn_inv. rewrite E1, E2. auto.
-  - unfold conn_inv. rewrite E1, E2. split; [|split].
-    + intros n d a v I. apply in_app_or in I. destruct I as [I|[I|[]]].
-      * apply hget_hput_keeps, hget_hput_keeps. eapply A; eauto.
-      * inversion I; subst. apply hget_hput_keeps. rewrite hget_hput_same. discriminate.
-    + rewrite map_app. simpl. apply NoDup_app_one; auto.
-      intros I. apply in_map_iff in I. destruct I as ([[[n d] a] v] & Ed & I). subst d.
-      apply (A _ _ _ _ I). exact G.
-    + intros n d a v I W. apply in_app_or in I. destruct I as [I|[I|[]]]; [eapply V; eauto|].
-      inversion I; subst. auto.
+  destruct (cid_eqb a b) eqn:E; destruct (cid_eqb b a) eqn:F; auto.
+  - apply cid_eqb_eq in E. subst. rewrite cid_eqb_refl in F. discriminate.
+  - apply cid_eqb_eq in F. subst. rewrite cid_eqb_refl in E. discriminate.
 Qed.
 
-Lemma conn_run c ops : forall s s' outs, srun c s ops = (s', outs) -> conn_inv c s -> conn_inv c s'.
+Lemma cid_eqb_trans_false k c d : cid_eqb k c = true -> cid_eqb c d = false -> cid_eqb k d = false.
+Proof. intros A B. apply cid_eqb_eq in A. subst. exact B. Qed.
+
+Lemma hget_hdel_other c d h : cid_eqb c d = false -> hget d (hdel c h) = hget d h.
+Proof.
+  intros N. induction h as [|[k m] r IH]; simpl; [reflexivity|].
+  destruct (cid_eqb k c) eqn:E; simpl.
+  - rewrite (cid_eqb_trans_false _ _ _ E N). exact IH.
+  - destruct (cid_eqb k d); [reflexivity | exact IH].
+Qed.
+
+Lemma hget_hput_other c d n h : cid_eqb c d = false -> hget d (hput c n h) = hget d h.
+Proof.
+  intros N. induction h as [|[k m] r IH]; simpl.
+  - rewrite N. reflexivity.
+  - destruct (cid_eqb k c) eqn:E; simpl.
+    + rewrite (cid_eqb_trans_false _ _ _ E N). reflexivity.
+    + destruct (cid_eqb k d); [reflexivity | exact IH].
+Qed.
+
+(** a connection created for an address that must be verified carries a token valid for that address
+    (a fact about the history of creations: closing changes nothing about it) *)
+Definition verified_inv (c : scfg) (s : sst) : Prop :=
+  forall n d a v, In (n, d, a, v) (created s) -> zmem a (verifyAddrs c) = true -> v = true.
+
+Lemma verified_run c ops : forall s s' outs, srun c s ops = (s', outs) -> verified_inv c s -> verified_inv c s'.
 Proof.
   induction ops as [|o r IH]; intros s s' outs H I.
   - simpl in H. inversion H; subst. exact I.
   - rewrite srun_cons in H. destruct (sstep c s o) as [s1 out] eqn:Hs.
     destruct (srun c s1 r) as [s2 o2] eqn:Hr. inversion H; subst.
-    apply (IH _ _ _ Hr). destruct o as [now p|]; simpl in Hs.
-    + destruct (recv_frame _ _ _ _ _ _ Hs) as (sc & Hc & E1 & _ & E3 & _).
-      pose proof (conn_core _ _ _ _ _ _ Hc I) as J. unfold conn_inv in *. rewrite E1, E3. exact J.
-    + destruct (drain_frame _ _ _ Hs) as (E1 & _ & E3 & _). unfold conn_inv in *. rewrite E1, E3. exact I.
+    apply (IH _ _ _ Hr). destruct o as [now p| |n|n k]; simpl in Hs.
+    + destruct (recv_frame _ _ _ _ _ _ Hs) as (sc & Hc & _ & _ & E3 & _).
+      unfold verified_inv. rewrite E3.
+      destruct (created_core _ _ _ _ _ _ Hc) as [(E1 & _)|(size & dcid & scid & tok & addr & intact & newcid & Ep & G & E1 & _ & _ & U & _)].
+      * rewrite E1. exact I.
+      * rewrite E1. intros n0 d a v J W. apply in_app_or in J. destruct J as [J|[J|[]]]; [eapply I; eauto|].
+        inversion J; subst. auto.
+    + destruct (drain_frame _ _ _ Hs) as (_ & _ & E3 & _). unfold verified_inv. rewrite E3. exact I.
+    + destruct (rm_frame s s1 out (or_introl (ex_intro _ n Hs))) as (_ & _ & _ & _ & _ & _ & E3 & _). unfold verified_inv. rewrite E3. exact I.
+    + destruct (rm_frame s s1 out (or_intror (ex_intro _ n (ex_intro _ k Hs)))) as (_ & _ & _ & _ & _ & _ & E3 & _). unfold verified_inv. rewrite E3. exact I.
 Qed.
 
-Lemma conn_inv_s0 c : conn_inv c s0.
-Proof. unfold conn_inv, s0. simpl. split; [intros ? ? ? ? []|split; [constructor | intros ? ? ? ? []]]. Qed.
+(** the connection ID generator's contract: an ID it hands out is not registered at that moment (it may equal the
+    very DCID the client chose for this connection: a server may echo it) *)
+Definition fresh_step (s : sst) (o : sop) : bool :=
+  match o with
+  | SRecv _ (SPinitial _ dcid _ _ _ _ newcid) =>
+      match hget newcid (handlers s) with None => true | Some _ => false end
+  | _ => true
+  end.
+Fixpoint sfresh (c : scfg) (s : sst) (ops : list sop) : bool :=
+  match ops with
+  | [] => true
+  | o :: r => fresh_step s o && sfresh c (fst (sstep c s o)) r
+  end.
+
+(** every live registration routes to its connection, and no connection ID is registered twice *)
+Definition route_inv (s : sst) : Prop :=
+  (forall n k, In (n, k) (owns s) -> hget k (handlers s) = Some n) /\
+  (forall n m k, In (n, k) (owns s) -> In (m, k) (owns s) -> n = m).
+
+Lemma hdel_all_other ks : forall h d, (forall k, In k ks -> cid_eqb k d = false) -> hget d (hdel_all ks h) = hget d h.
+Proof.
+  unfold hdel_all. induction ks as [|k r IH]; intros h d N; simpl; [reflexivity|].
+  rewrite IH; [|intros k' I; apply N; right; exact I]. apply hget_hdel_other. apply N. left. reflexivity.
+Qed.
+
+Lemma route_core c s now p s1 o : recv_core c s now p = (s1, o) -> fresh_step s (SRecv now p) = true ->
+  route_inv s -> route_inv s1.
+Proof.
+  intros H F (A & B).
+  destruct (created_core _ _ _ _ _ _ H) as [(_ & E2 & _ & O)|(size & dcid & scid & tok & addr & intact & newcid & Ep & G & _ & E2 & _ & _ & O)].
+  - unfold route_inv. rewrite O, E2. split; assumption.
+  - subst p. simpl in F. destruct (hget newcid (handlers s)) eqn:Fn; [discriminate|].
+    unfold route_inv. rewrite O, E2. split.
+    + intros n k I. apply in_app_or in I. destruct I as [I|[I|[I|[]]]].
+      * pose proof (A _ _ I) as Hk.
+        assert (N1 : cid_eqb newcid k = false) by (apply cid_eqb_neq; intros ->; congruence).
+        assert (N2 : cid_eqb dcid k = false) by (apply cid_eqb_neq; intros ->; congruence).
+        rewrite hget_hput_other, hget_hput_other; auto.
+      * inversion I; subst. destruct (cid_eqb newcid k) eqn:E.
+        -- apply cid_eqb_eq in E. subst. apply hget_hput_same.
+        -- rewrite hget_hput_other by exact E. apply hget_hput_same.
+      * inversion I; subst. apply hget_hput_same.
+    + intros n m k I J. apply in_app_or in I. apply in_app_or in J.
+      assert (Old : forall x, In (x, k) (owns s) -> hget k (handlers s) <> None) by (intros x Ix; rewrite (A _ _ Ix); discriminate).
+      destruct I as [I|[I|[I|[]]]]; destruct J as [J|[J|[J|[]]]]; try (eapply B; eauto; fail);
+        try (inversion I; subst); try (inversion J; subst); auto;
+        try (exfalso; eapply Old; eauto; fail).
+Qed.
+
+Lemma filter_In_owns {A} (f : A -> bool) l x : In x (filter f l) -> In x l /\ f x = true.
+Proof. apply filter_In. Qed.
+
+Lemma route_close s n s1 o : close_conn s n = (s1, o) -> route_inv s -> route_inv s1.
+Proof.
+  unfold close_conn. intros H (A & B). inversion H; subst; clear H. unfold route_inv. simpl. split.
+  - intros m k I. apply filter_In in I. destruct I as (I & Nm). simpl in Nm.
+    rewrite hdel_all_other; [apply A; exact I|].
+    intros k' J. unfold owned_by in J. apply in_map_iff in J. destruct J as ([n' k''] & Ek & J). simpl in Ek. subst k''.
+    apply filter_In in J. destruct J as (J & En). simpl in En. apply Z.eqb_eq in En. subst n'.
+    apply cid_eqb_neq. intros ->. pose proof (B _ _ _ I J). subst. rewrite Z.eqb_refl in Nm. discriminate.
+  - intros a b k I J. apply filter_In in I. apply filter_In in J. destruct I, J. eapply B; eauto.
+Qed.
+
+Lemma route_retire s n k s1 o : retire_id s n k = (s1, o) -> route_inv s -> route_inv s1.
+Proof.
+  unfold retire_id. intros H (A & B). destruct (existsb _ (owns s)) eqn:Ex; inversion H; subst; clear H; [|split; assumption].
+  unfold route_inv. simpl. split.
+  - intros m k' I. apply filter_In in I. destruct I as (I & Nm). simpl in Nm.
+    destruct (cid_eqb k k') eqn:E.
+    + exfalso. apply cid_eqb_eq in E. subst k'. rewrite cid_eqb_refl, andb_true_r in Nm.
+      apply existsb_exists in Ex. destruct Ex as ([n' k''] & J & Ek). simpl in Ek. apply andb_prop in Ek as (En & Ek).
+      apply Z.eqb_eq in En. apply cid_eqb_eq in Ek. subst. pose proof (B _ _ _ I J). subst. rewrite Z.eqb_refl in Nm. discriminate.
+    + rewrite hget_hdel_other by exact E. apply A. exact I.
+  - intros a b k' I J. apply filter_In in I. apply filter_In in J. destruct I, J. eapply B; eauto.
+Qed.
+
+Lemma route_run c ops : forall s s' outs, srun c s ops = (s', outs) -> sfresh c s ops = true -> route_inv s -> route_inv s'.
+Proof.
+  induction ops as [|o r IH]; intros s s' outs H F I.
+  - simpl in H. inversion H; subst. exact I.
+  - rewrite srun_cons in H. destruct (sstep c s o) as [s1 out] eqn:Hs.
+    destruct (srun c s1 r) as [s2 o2] eqn:Hr. inversion H; subst.
+    simpl in F. rewrite Hs in F. simpl in F. apply andb_prop in F as (F0 & F1).
+    apply (IH _ _ _ Hr F1). destruct o as [now p| |n|n k]; simpl in Hs.
+    + destruct (recv_frame _ _ _ _ _ _ Hs) as (sc & Hc & E1 & _ & _ & _ & _ & _ & _ & Ecl).
+      pose proof (route_core _ _ _ _ _ _ Hc F0 I) as J.
+      assert (O : owns s1 = owns sc) by (destruct Ecl as [->| ->]; reflexivity).
+      unfold route_inv in *. rewrite O, E1. exact J.
+    + unfold drain in Hs. inversion Hs; subst. exact I.
+    + eapply route_close; eauto.
+    + eapply route_retire; eauto.
+Qed.
+
+Lemma route_inv_s0 : route_inv s0.
+Proof. split; [intros n k [] | intros n m k []]. Qed.
 
 (** an Initial for a DCID that already has a connection is handed to that connection *)
 Lemma routed_core c s now size dcid scid tok addr intact newcid n :
@@ -345,7 +475,9 @@ Definition retry_cause (c : scfg) (a : Z) (d sc : cid) (o : sop) : Prop :=
 Lemma retryq_step c s o s1 out : sstep c s o = (s1, out) ->
   forall a d sc i, In (a, d, sc, i) (retryq s1) -> In (a, d, sc, i) (retryq s) \/ retry_cause c a d sc o.
 Proof.
-  intros Hs a d sc i I. destruct o as [now p|]; simpl in Hs.
+  intros Hs a d sc i I. destruct o as [now p| |n|n k]; simpl in Hs.
+  3: { destruct (rm_frame s s1 out (or_introl (ex_intro _ n Hs))) as (_ & _ & _ & _ & _ & R & _). left. congruence. }
+  3: { destruct (rm_frame s s1 out (or_intror (ex_intro _ n (ex_intro _ k Hs)))) as (_ & _ & _ & _ & _ & R & _). left. congruence. }
   - destruct (recv_frame _ _ _ _ _ _ Hs) as (sx & Hc & _ & _ & _ & _ & _ & _ & R & _).
     rewrite R in I. destruct (retryq_core _ _ _ _ _ _ Hc) as [E|E].
     + left. congruence.
@@ -372,7 +504,7 @@ Proof.
       * destruct (K _ _ _ _ J) as [L|C]; [auto|]. right. exists o. split; [left; auto | exact C].
       * right. exists o'. split; [right; exact Io | exact C].
     + intros l a d sc [E|I] J.
-      * subst out. destruct o as [now p|]; simpl in Hs.
+      * subst out. destruct o as [now p| |n|n k]; simpl in Hs.
         -- exfalso. unfold recv in Hs. destruct (recv_core c s now p) as [sx ox] eqn:Ec.
            assert (ox = SDrained l) by (destruct (negb (nextCleanup s =? 0) && (nextCleanup s <? now)); inversion Hs; auto).
            subst ox. revert Ec. clear. core_cases p.
@@ -384,6 +516,8 @@ Proof.
            apply in_app_or in J. destruct J as [J|J].
            { apply in_map_iff in J. destruct J as ([[[? ?] ?] ?] & Ex & _). inversion Ex. }
            apply in_map_iff in J. destruct J as ([[[a' d'] sc'] i'] & Ex & Ix). inversion Ex; subst. exists i'. exact Ix.
+        -- exfalso. destruct (rm_frame s s1 _ (or_introl (ex_intro _ n Hs))) as (_ & _ & _ & _ & _ & _ & _ & _ & k0 & Ek). discriminate.
+        -- exfalso. destruct (rm_frame s s1 _ (or_intror (ex_intro _ n (ex_intro _ k Hs)))) as (_ & _ & _ & _ & _ & _ & _ & _ & k0 & Ek). discriminate.
       * destruct (IH2 _ _ _ _ I J) as [(i & Q)|(o' & Io & C)].
         -- destruct (K _ _ _ _ Q) as [L|C]; [left; eauto|]. right. exists o. split; [left; auto | exact C].
         -- right. exists o'. split; [right; exact Io | exact C].
@@ -406,12 +540,29 @@ Proof.
   destruct (V _ _ _ _ I J) as [(i & [])|E]. exact E.
 Qed.
 
-Lemma sa_conns c ops s' outs : srun c s0 ops = (s', outs) ->
-  NoDup (map (fun x => match x with (_, d, _, _) => d end) (created s')) /\
-  (forall n d a v, In (n, d, a, v) (created s') -> hget d (handlers s') <> None) /\
-  (forall n d a v, In (n, d, a, v) (created s') -> zmem a (verifyAddrs c) = true -> v = true).
+Lemma sa_verified c ops s' outs : srun c s0 ops = (s', outs) ->
+  forall n d a v, In (n, d, a, v) (created s') -> zmem a (verifyAddrs c) = true -> v = true.
+Proof. intros H. apply (verified_run c ops _ _ _ H). intros n d a v []. Qed.
+
+(** With a connection ID generator that never hands out a registered ID: in every reachable state — connections may have
+    closed, client DCIDs may have been retired — every connection ID a live connection has registered routes to that
+    connection, and no connection ID is registered by two live connections (so: at most one live connection per
+    client-chosen DCID, and it is the one the DCID routes to). *)
+Lemma sa_routes c ops s' outs : srun c s0 ops = (s', outs) -> sfresh c s0 ops = true ->
+  (forall n k, In (n, k) (owns s') -> hget k (handlers s') = Some n) /\
+  (forall n m k, In (n, k) (owns s') -> In (m, k) (owns s') -> n = m).
+Proof. intros H F. exact (route_run c ops _ _ _ H F route_inv_s0). Qed.
+
+(** a new connection is only created for a DCID that is not routed: none while a live connection has it registered *)
+Lemma no_second_while_live c s now p s1 n0 od0 rs0 v0 rtt0 e0 :
+  recv_core c s now p = (s1, SNewConn n0 od0 rs0 v0 rtt0 e0) ->
+  exists size dcid scid tok addr intact newcid, p = SPinitial size dcid scid tok addr intact newcid /\
+    hget dcid (handlers s) = None /\ (route_inv s -> forall m, ~ In (m, dcid) (owns s)).
 Proof.
-  intros H. destruct (conn_run c ops _ _ _ H (conn_inv_s0 c)) as (A & B & V). auto.
+  intros H. destruct (created_core _ _ _ _ _ _ H) as [(_ & _ & Nc & _)|(size & dcid & scid & tok & addr & intact & newcid & Ep & G & _ & _ & Nc & _)].
+  - exfalso. revert H Nc. clear. core_cases p; simpl; intros; lia.
+  - exists size, dcid, scid, tok, addr, intact, newcid. split; [exact Ep|]. split; [exact G|].
+    intros (A & _) m I. rewrite (A _ _ I) in G. discriminate.
 Qed.
 
 Lemma sa_zq_bounds c ops s' outs : srun c s0 ops = (s', outs) ->
@@ -512,7 +663,9 @@ Local Transparent Z.add.
 Lemma early_step c s o s1 out : sstep c s o = (s1, out) -> q_nonneg (zq s) ->
   q_nonneg (zq s1) /\ early_of out + qsum (zq s1) <= queued_of out + qsum (zq s).
 Proof.
-  intros H N. destruct o as [now p|]; simpl in H.
+  intros H N. destruct o as [now p| |n|n k]; simpl in H.
+  3: { destruct (rm_frame s s1 out (or_introl (ex_intro _ n H))) as (Z & _ & _ & _ & _ & _ & _ & _ & k0 & ->). rewrite Z. simpl. split; [exact N | lia]. }
+  3: { destruct (rm_frame s s1 out (or_intror (ex_intro _ n (ex_intro _ k H)))) as (Z & _ & _ & _ & _ & _ & _ & _ & k0 & ->). rewrite Z. simpl. split; [exact N | lia]. }
   - unfold recv in H. destruct (recv_core c s now p) as [sx ox] eqn:E.
     destruct (early_core _ _ _ _ _ _ E N) as (N1 & L1).
     destruct (negb (nextCleanup s =? 0) && (nextCleanup s <? now)); inversion H; subst; [|auto].
